@@ -132,8 +132,13 @@ def chainOracleRaw (curves : List (Pt3 Float × Pt3 Float × Pt3 Float × Pt3 Fl
         if !(same3 parr[pos]! kn) then fails := fails ++ [s!"chain_misses_knot:{k}"]
       pos := pos + (arr.getD k (kn, kn, kn, kn, 0)).2.2.2.2
       k := k + 1
+    -- "a closed chain does not repeat its first point": the sample count above already says so; the
+    -- value test below is an independent look at the data, valid unless the chain legitimately visits
+    -- its first point again (an interior knot equal to it, or a closing curve that stands still)
     if closed && pts.length ≥ 2 then
-      if same3 (pts.getLastD ⟨0, 0, 0⟩) (pts.headD ⟨1, 1, 1⟩) && total > 0 then
+      let first := pts.headD ⟨1, 1, 1⟩
+      let revisits := (pts.drop 1).dropLast.any (same3 · first) || (knots.drop 1).any (same3 · first)
+      if same3 (pts.getLastD ⟨0, 0, 0⟩) first && total > 0 && !revisits then
         fails := fails ++ ["closed_chain_repeats_first_point"]
   return fails.eraseDups
 
